@@ -326,18 +326,24 @@ func ReactScenarios() []History {
 			ops = append(ops, Ev{Name: "Obs"})
 		}
 	}
-	// forty of them serve one call, and the owner withdraws everything at once
-	var fleet []string
-	for i := 0; i < 104; i += 3 {
-		fleet = append(fleet, fmt.Sprintf("q%03d", i))
+	// thirty of them serve three calls (a call names ten providers at most), among them the four whose addresses
+	// sort last of the 104; then the owner withdraws everything at once
+	fleets := [][]string{{"q020", "q025", "q026", "q097"}, {}, {}}
+	for i := 0; i < 78; i += 3 {
+		k := 0
+		for len(fleets[k]) >= 10 {
+			k++
+		}
+		fleets[k] = append(fleets[k], fmt.Sprintf("q%03d", i))
 	}
-	for i := 1; i < 16; i += 3 {
-		fleet = append(fleet, fmt.Sprintf("q%03d", i))
+	for _, f := range fleets {
+		ops = append(ops, Ev{Name: "Call", Signer: "c1", Svc: "s", Provs: f, Cap: 10, Timeout: 2})
 	}
-	fleet = append(fleet, "q020", "q025", "q026", "q097") // (the ones whose addresses sort last among the 104)
-	ops = append(ops, Ev{Name: "Call", Signer: "c1", Svc: "s", Provs: fleet, Cap: 10, Timeout: 2}, eb(1))
-	for i, q := range fleet {
-		ops = append(ops, Ev{Name: "Respond", Signer: q, Rid: rid(1, 1, 1, int64(i)), Kind: "valid"})
+	ops = append(ops, eb(1))
+	for c, f := range fleets {
+		for i, q := range f {
+			ops = append(ops, Ev{Name: "Respond", Signer: q, Rid: rid(int64(c+1), 1, 1, int64(i)), Kind: "valid"})
+		}
 	}
 	ops = append(ops, Ev{Name: "Obs"}, Ev{Name: "Withdraw", Signer: "o1"}, Ev{Name: "Obs"}, eb(1), eb(1))
 	add("a-popular-service", smallParams(), map[string]int64{"o1": 2000, "o2": 1000, "c1": 1000}, ops...)
